@@ -155,3 +155,10 @@ def run_case(case, drv, nmax=None):
     res.nontrivial = n >= 2 and nfeas >= 1 and ninf >= 1
     res.features.append(f"exhaustive:{n <= tier_n}")
     return res
+
+
+EXHAUSTIVE_SCOPE = FU.EXHAUSTIVE_FORMS_SCOPE
+
+
+def gen_exhaustive():
+    yield from FU.gen_exhaustive_forms(("arc", "path", "seq"), extra=dict(feas=False, rho=None))
